@@ -3,6 +3,7 @@
 package client
 
 import (
+	"sync"
 	"strings"
 	"math/rand"
 	"net/url"
@@ -74,7 +75,13 @@ func verifInstallWorld(sim *verifsim.Sim, rng *rand.Rand, world map[string]verif
 		case "redir":
 			routes[u] = verifsim.Resp{Status: []int{301, 302, 307}[rng.Intn(3)], Body: "empty", Loc: r.To}
 		case "doc":
-			routes[u] = verifsim.Resp{Status: 200, Ct: []string{"activity"}, Body: "obj", JSON: verifDoc(w, r.Id, r.Stub, host)}
+			resp := verifsim.Resp{Status: 200, Ct: []string{"activity"}, Body: "obj", JSON: verifDoc(w, r.Id, r.Stub, host)}
+			if idHost, _ := verifsim.SplitID(r.Id); r.Id != "none" && idHost != host && rng.Intn(2) == 0 {
+				/* a document that claims an id of another host may say so in its headers too: where the document "is" according to
+				   the one who sent it changes nothing about who sent it */
+				resp.Extra = []string{[]string{"Content-Location: ", "Location: ", "content-location: "}[rng.Intn(3)] + w.URL(r.Id)}
+			}
+			routes[u] = resp
 		}
 	}
 	w.Install(rng)
@@ -160,7 +167,27 @@ func TestVerifProvenance(t *testing.T) {
 		}
 		for k := 0; k < in.Extra; k++ {
 			if k == extraBefore {
-				verifRunCase(out, w, hosts, urls, c.Inp, c.Src, true)
+				if sid%4 == 2 {
+					/* three callers at the same moment (the fan-outs of pub ask side by side), answers a little late so that the
+					   fetches are in flight together: each of them is judged */
+					for u := range c.World {
+						host, path := verifsim.SplitID(u)
+						if route := sim.Host(host).Route(path); route != nil {
+							route.Delay = 15 * time.Millisecond
+						}
+					}
+					var wg sync.WaitGroup
+					for g := 0; g < 3; g++ {
+						wg.Add(1)
+						go func() {
+							defer wg.Done()
+							verifRunCase(out, w, hosts, urls, c.Inp, c.Src, true)
+						}()
+					}
+					wg.Wait()
+				} else {
+					verifRunCase(out, w, hosts, urls, c.Inp, c.Src, true)
+				}
 			}
 			var inp verifInput
 			src := "none"
